@@ -49,5 +49,6 @@ typedef struct { bool has; size_t val; } VF_OptSize;
 #define VF_NULLOPT ((VF_OptSize){0, 0})
 /* CBMC models _Bool as an 8-bit integer: a symbolic bool in fresh memory may hold 2..255; a valid C++ bool holds 0 or 1 */
 #define BOOL_OK(b) (*(const unsigned char*)&(b) <= 1)
+#define BOOL_RET __CPROVER_ensures(__CPROVER_return_value == 0 || __CPROVER_return_value == 1)
 #define VF_CANARY() __CPROVER_assert(0, "VF_CANARY reachability")
 #endif
